@@ -933,17 +933,36 @@ class ValueInput(Value):
     def __repr__(self):
         return "<!input-stream>"
 
+    # self.input is one of the input classes above or a text stream of the
+    # host (stdin), which has no readLine / readAll / process of its own
     def process(self, callback):
-        return self.input.process(callback)
+        if hasattr(self.input, "process"):
+            return self.input.process(callback)
+        count = 0
+        line = self.readLine()
+        while line:
+            callback(line)
+            count += 1
+            line = self.readLine()
+        return count
 
     def readLine(self):
-        return self.input.readLine()
+        if hasattr(self.input, "readLine"):
+            return self.input.readLine()
+        line = self.input.readline()
+        if line == "":
+            return None
+        return line[:-1] if line.endswith("\n") else line
 
     def read(self):
-        return self.input.read()
+        if hasattr(self.input, "readLine"):
+            return self.input.read()
+        return self.input.read(1) or None
 
     def readAll(self):
-        return self.input.readAll()
+        if hasattr(self.input, "readAll"):
+            return self.input.readAll()
+        return self.input.read() or None
 
     def close(self):
         if self.closed:
